@@ -61,10 +61,6 @@ class Engine(Executor):
             self.prove(s, ok, "K5", node, "call-pre of %s: called as %s" % (name, form.get("text", "the form its assumed contract covers")),
                        clause="call_form")
         out = []
-        if not self.in_spec:
-            for cls in c.raises:
-                sb = s.fork()
-                out.append((sb, Exc(cls, self.origin(node), "raised by the library call %s (its assumed contract allows it)" % name)))
         if c.opts.get("event"):
             saved_env, saved_fi = s.env, self.cur_fi
             self.cur_fi = self.contract_fi
@@ -82,6 +78,13 @@ class Engine(Executor):
                 raise Unsupported("event expression of %s" % c.name, node)
             s.ghost = dict(s.ghost)
             s.ghost["events"] = list(s.ghost.get("events", [])) + [r[0][1]]
+        if not self.in_spec:
+            # (the event says that the call was made: it is part of the history also when the call raises)
+            for cls in c.raises:
+                sb = s.fork()
+                out.append((sb, Exc(cls, self.origin(node), "raised by the library call %s (its assumed contract allows it)" % name)))
+        if c.opts.get("noreturn") and not self.in_spec:
+            return out
         return [(s, res)] + out
 
     # -- conversions ---------------------------------------------------------
@@ -671,6 +674,20 @@ class Engine(Executor):
             return self.apply_ext(self.registry["extmethod:" + meth][0], "method." + meth, args, kwargs, s, node, recv=recv)
         if not owners and meth in ("append", "add") and len(args) == 1 and not kwargs:
             return self.heap_container_method(recv, meth, args[0], s, node)
+        if not owners and meth == "clear" and not args and not kwargs:
+            # list.clear() on a pre-existing heap list: a new content state of length 0
+            t = recv.t
+            rid = V.get_rid(t)
+            out = []
+            for (s2, x) in self.need(s, z3.And(V.is_Ref(t), z3.Or(V.kind_of(rid) == V.K_LIST, V.kind_of(rid) == V.K_DICT, V.kind_of(rid) == V.K_SET)),
+                                     "AttributeError", node, "receiver of .clear() is a list, dict or set"):
+                if x is not None:
+                    out.append((s2, x))
+                    continue
+                _old, new = s2.heap_write(rid, "clear")
+                s2.assume(z3.And(V.seq_len(new) == 0, V.map_len(new) == 0))
+                out.append((s2, Z(V.VNone)))
+            return out
         if not owners and meth == "get" and len(args) in (1, 2) and not kwargs and all(isinstance(a_, Z) for a_ in args):
             # dict.get(key[, default]) on a heap dict
             t = recv.t
@@ -813,6 +830,9 @@ class Engine(Executor):
                 return [(s, Z(V.VNone))]
             if meth == "copy":
                 return [(s, s.alloc(box.clone()))]
+            if meth == "clear" and not args:
+                box.length = z3.IntVal(0)
+                return [(s, Z(V.VNone))]
             if meth == "pop" and not args and box.length is not None:
                 out = []
                 for (s2, x) in self.need(s, box.length > 0, "IndexError", node, "pop() from a non-empty collection"):
@@ -1163,8 +1183,10 @@ class Engine(Executor):
                     raise Unsupported("event expression of %s" % c.name, node)
                 st.ghost = dict(st.ghost)
                 st.ghost["events"] = list(st.ghost.get("events", [])) + [r[0][1]]
-        for st in states:
-            out.append((st, res))
+        if not (c.opts.get("noreturn") and not self.in_spec):
+            for st in states:
+                out.append((st, res))
+        # (a `noreturn` callee -- one that always ends in sys.exit -- has exceptional outcomes only)
         for cls in ([] if self.in_spec else c.raises):
             # (inside contract text a call denotes its value where it has one: no exceptional outcome is forked)
             sb = s.fork()
@@ -1499,6 +1521,14 @@ class Engine(Executor):
                 box = st.store[v.ref]
                 t = z3.Const("loop_%s_%s!%s" % (obj, attr, tag), Val)
                 box.fields[attr] = Z(t)
+                over = self.contract.opts.get("heap_fields", {}).get("%s.%s" % (box.cls, attr))
+                if over:
+                    # a field whose type the contract states as a class invariant keeps it across iterations
+                    cst, h = self.constraint_of_annotation(ast.parse(over, mode="eval").body, t)
+                    if cst is not None:
+                        st.assume(cst)
+                        box.fields[attr] = Z(t, h)
+                        self.assumptions.add("class invariant: %s.%s holds a value of its stated type %s" % (box.cls, attr, over))
         return cands
 
     def list_elem_ok(self, st, names, stmt):
@@ -1917,6 +1947,18 @@ class Engine(Executor):
                         self.unsupported.append((fi.qualname, 0, "ensures %r: %s" % (en, u.reason)))
             elif oc[0] == "raise":
                 exc = oc[1]
+                for en in (c.opts.get("exc_ensures") or {}).get(exc.cls, []):
+                    # a post-condition of the paths that END in this exception (a command's main() always ends in
+                    # SystemExit): evaluated in the state in which the exception leaves the function
+                    env2 = dict(entry)
+                    for nm_, val_ in s.env.items():
+                        env2.setdefault(nm_, val_)
+                    env2["events"] = PyTuple(list(s.ghost.get("events", [])))
+                    try:
+                        for (s2, b) in self.eval_clause(en, s.fork(), env2, fi.node):
+                            self.prove(s2, b, "K2", fi.node, "post-condition of the %s exit: %s" % (exc.cls, en), clause="exc:" + en)
+                    except Unsupported as u:
+                        self.unsupported.append((fi.qualname, 0, "exc_ensures %r: %s" % (en, u.reason)))
                 if self.allowed_raise(c, exc.cls):
                     if self.settle(exc, "allowed") is None:
                         ob = self.add_obl("K1", None, "raise of %s is allowed by the contract" % exc.cls, [T(False)], clause=exc.cls)
